@@ -15,10 +15,14 @@ import time
 
 HERE = os.path.dirname(os.path.abspath(__file__))
 ROOT = os.path.dirname(HERE)  # the directory of ./check (may be a snapshot)
-LEAN_DIR = os.path.join(ROOT, "lean")
+# VC2_LEAN_DIR: a private copy of the Lean project (used when a seeded change is tried against another tree, so that
+# concurrent runs never share generated files or build output); registered commands never set it
+LEAN_DIR = os.environ.get("VC2_LEAN_DIR") or os.path.join(ROOT, "lean")
 GEN_DIR = os.path.join(LEAN_DIR, "VC2", "Gen")
-EVIDENCE_DIR = os.path.join(ROOT, "evidence")
-REPLAY_DIR = os.path.join(ROOT, "replays")
+# VC2_OUT_DIR: where a seeded-change trial writes its evidence and replay (never set by registered commands)
+_OUT = os.environ.get("VC2_OUT_DIR") or ROOT
+EVIDENCE_DIR = os.path.join(_OUT, "evidence")
+REPLAY_DIR = os.path.join(_OUT, "replays")
 CORPUS_DIR = os.path.join(ROOT, "corpus")
 REPO = os.environ.get("VC2_REPO", "/repo")
 GUARD = "VC2_CONFORMANCE_VERIF"
